@@ -574,6 +574,9 @@ func callSSA(i *interpreter, caller *frame, callpos token.Pos, fn *ssa.Function,
 				return r
 			}
 		}
+		if fn.Pkg != nil && fn.Pkg.Pkg.Path() == "time" && mentionsTime(fn.Signature) {
+			unsupported("time.%s is not covered by the abstract time model", fn.Name())
+		}
 		if fn.Pkg != nil && fn.Name() == "init" && fn.Signature.Recv() == nil && caller != nil && caller.fn.Name() == "init" && fn.Synthetic == "package initializer" {
 			// dependency initialisers are run lazily, not eagerly
 			return nil
@@ -776,4 +779,30 @@ func doRecover(caller *frame) value {
 		}
 	}
 	return iface{}
+}
+
+// mentionsTime reports whether a signature of package time involves time.Time
+// (whose representation is replaced by the abstract-instant model).
+func mentionsTime(sig *types.Signature) bool {
+	isTime := func(t types.Type) bool {
+		if p, ok := t.(*types.Pointer); ok {
+			t = p.Elem()
+		}
+		n, ok := t.(*types.Named)
+		return ok && n.Obj().Name() == "Time" && n.Obj().Pkg() != nil && n.Obj().Pkg().Path() == "time"
+	}
+	if r := sig.Recv(); r != nil && isTime(r.Type()) {
+		return true
+	}
+	for k := 0; k < sig.Params().Len(); k++ {
+		if isTime(sig.Params().At(k).Type()) {
+			return true
+		}
+	}
+	for k := 0; k < sig.Results().Len(); k++ {
+		if isTime(sig.Results().At(k).Type()) {
+			return true
+		}
+	}
+	return false
 }
